@@ -134,6 +134,28 @@ theorem sharded_select_eq_filter (db : Db) (hh : HeadWF db.head) (hb : BlockWF d
       db.select w m (some ⟨i, n⟩) = .ok (all.filter fun ls => xxhash64 (serialise ls) % n == i) :=
   db_select_sharded db hh hb w m i n hn
 
+/-- The property statement on the storage model: with sharding enabled, for every shard count `n ≥ 1`, every
+    reader (head, block, both) and every matcher, the selects with `ShardIndex = 0 … n-1` succeed, return
+    pairwise disjoint sub-lists of the unsharded result (same order) whose union is the unsharded result,
+    each series in exactly one of them; an index `≥ n` returns nothing. -/
+theorem select_shards_partition (db : Db) (hh : HeadWF db.head) (hb : BlockWF db) (w : Where) (m : Matcher)
+    (n : UInt64) (hn : 1 ≤ n) :
+    ∃ all : List Labels, db.select w m none = .ok all ∧
+      ∃ shard : UInt64 → List Labels, (∀ i, db.select w m (some ⟨i, n⟩) = .ok (shard i)) ∧
+        (∀ s ∈ all, ∃ i, i < n ∧ s ∈ shard i ∧ ∀ j, s ∈ shard j → j = i) ∧
+        (∀ s, s ∈ all ↔ ∃ i, i < n ∧ s ∈ shard i) ∧
+        (∀ i j, i ≠ j → ∀ s, s ∈ shard i → s ∉ shard j) ∧
+        (∀ i, n ≤ i → shard i = []) ∧
+        (∀ i, (shard i).Sublist all) := by
+  have hpos : 0 < n := UInt64.lt_iff_toNat_lt.mpr hn
+  obtain ⟨all, h0, _⟩ := sharded_select_eq_filter db hh hb w m 0 n hpos
+  refine ⟨all, h0, fun i => shardedPostings stableHash all i n, ?_, shards_partition stableHash all n hn⟩
+  intro i
+  obtain ⟨all', h0', hi⟩ := sharded_select_eq_filter db hh hb w m i n hpos
+  rw [h0] at h0'
+  cases h0'
+  exact hi
+
 /-- the invariant is established by building a head through `getOrCreate` … -/
 theorem headWF_of_creates (l : List Labels) : HeadWF (l.foldl Head.getOrCreate ⟨true, []⟩) :=
   headWF_foldl l _ headWF_empty
@@ -173,5 +195,37 @@ theorem judge_accepts_model_hash (ops : List Prom.Shard.Op) (hall : ∀ op ∈ o
     obtain ⟨v, ls, rfl⟩ := hall _ List.mem_cons_self
     simp only [Prom.Shard.runOps, Prom.Shard.stepOp, Prom.Shard.verdict, stableHashGo_eq, stableHash, if_true]
     exact ih (fun op h => hall op (List.mem_cons_of_mem _ h)) (k + 1)
+
+/-- The partition clause of the suite's oracle accepts every output of the form the theorems above give the
+    model: `n` shard results that are the unsharded result `u` filtered by a shard function with values `< n`
+    (so, with `sharded_select_eq_filter`, the `partition` clause can only fire on a real difference). -/
+theorem judge_partition_accepts_filter_shards (u : List Nat) (f : Nat → Nat) (n : Nat) (hf : ∀ k ∈ u, f k < n) :
+    Prom.Shard.partitionB u ((List.range n).map fun i => u.filter (fun k => f k == i)) = true := by
+  unfold Prom.Shard.partitionB
+  simp only [Bool.and_eq_true, List.all_eq_true]
+  constructor
+  · intro sh hsh
+    obtain ⟨i, _, rfl⟩ := List.mem_map.mp hsh
+    simp only [beq_iff_eq]
+    apply List.filter_congr
+    intro k hk
+    simp only [List.contains_eq_mem, List.mem_filter, hk, true_and, beq_iff_eq]
+    by_cases h : f k = i <;> simp [h]
+  · intro k hk
+    simp only [beq_iff_eq]
+    rw [List.filter_map, List.length_map, ← List.countP_eq_length_filter]
+    have : List.countP ((fun sh : List Nat => sh.contains k) ∘ fun i => u.filter (fun k => f k == i)) (List.range n)
+        = List.count (f k) (List.range n) := by
+      rw [List.count_eq_countP]
+      apply List.countP_congr
+      intro i _
+      simp only [Function.comp, List.contains_eq_mem, List.mem_filter, hk, true_and, beq_iff_eq, decide_eq_true_eq]
+      by_cases h : f k = i
+      · simp [h]
+      · have h' : ¬ i = f k := fun e => h e.symm
+        simp [h, h']
+    rw [this, List.Nodup.count List.nodup_range, if_pos (List.mem_range.mpr (hf k hk))]
+
+example : Prom.Shard.partitionB [4, 1, 7] [[4, 7], [1]] = true := by decide
 
 end Prom.C18
